@@ -1,6 +1,8 @@
 package copyh
 
 import (
+	"crypto/sha256"
+	"encoding/binary"
 	"encoding/json"
 	"errors"
 	"os"
@@ -275,7 +277,7 @@ func OracleC04(run *common.Run, id string, res *Result) int {
 
 // Budget of one harness run.
 type Budget struct {
-	Main, Contention, Twin, CbFail, Mount int
+	Main, Contention, Twin, CbFail, Mount, Remote int
 	Sched, SchedReps                      int // graphs run under testing/synctest with the PRNG-controlled scheduler, extra schedules per graph
 	Small                                 bool // small-scope enumeration (graphs <= 3 nodes, sampled 4-node graphs) x roots x closed subsets
 	Reps                           int // extra schedules (latency seeds) per generated case
@@ -288,6 +290,11 @@ func Drive(run *common.Run, prop string, b Budget) {
 	if prop == "C04" {
 		oracle = OracleC04
 	}
+	// root PRNG of this run.  common.NewRand(seed) starts consecutive seeds one draw apart (the
+	// splitmix64 state is seed * increment), so seeds 1,2,3 would generate the same cases shifted
+	// by one; hash the seed instead.
+	h := sha256.Sum256([]byte(fmt.Sprintf("copyh/%s/%d", prop, run.Seed)))
+	rootRand := common.NewRand(binary.LittleEndian.Uint64(h[:8]))
 	one := func(c *Case) {
 		id := run.NewID()
 		if js, err := json.Marshal(c); err == nil {
@@ -392,7 +399,7 @@ func Drive(run *common.Run, prop string, b Budget) {
 	}
 	stream := func(name string, n int) {
 		for i := 0; i < n; i++ {
-			c := Generate(run.Rand.U64(), name, run.Thorough())
+			c := Generate(rootRand.U64(), name, run.Thorough())
 			one(c)
 			for k := 0; k < b.Reps; k++ {
 				c2 := *c
@@ -405,11 +412,12 @@ func Drive(run *common.Run, prop string, b Budget) {
 	stream("contention", b.Contention)
 	stream("cbfail", b.CbFail)
 	stream("mount", b.Mount)
+	stream("remote", b.Remote)
 	stream("twin", b.Twin)
 	if T != nil {
 		// controlled schedules: several PRNG-chosen release orders per graph
 		for i := 0; i < b.Sched; i++ {
-			c := Generate(run.Rand.U64(), "sched", run.Thorough())
+			c := Generate(rootRand.U64(), "sched", run.Thorough())
 			one(c)
 			for k := 0; k < b.SchedReps; k++ {
 				c2 := *c
